@@ -49,7 +49,7 @@ class P(MetProp):
         recs = m.records(rng.randint(5, 14), start - rng_ns, (end - start) + rng_ns, ls, lines=("x",), numeric="v", values=[1, 2, 3, 5])
         sel = sel_all(m)
         drop = [m.g.st_dropkeep("drop", ["msg", "v"], [])]
-        kind = rng.choice(["count", "count", "sumby", "sumwithout", "nestedwithout", "unwrapmax"])
+        kind = rng.choice(["count", "count", "sumby", "sumwithout", "nestedwithout", "unwrapmax", "emptyjoin"])
         inner = m.mrange("count_over_time", sel, drop, rng_ns)
         rels = []
         if kind == "count":
@@ -58,6 +58,11 @@ class P(MetProp):
         elif kind == "sumby":
             L = rng.sample(names + ["nosuch"], rng.randint(0, min(3, len(names))))
             e = m.mvec("sum", inner, None, grouping(L))
+        elif kind == "emptyjoin":
+            # a grouping that hides EVERY label meets the label-less series of vector(): they are one series, not two
+            g0 = rng.choice([grouping(["nosuch"]), grouping([]), grouping(names + ["job"], True)])
+            agg = m.mvec(rng.choice(["sum", "count", "max"]), inner, None, g0)
+            e = rng.choice([m.mbin("or", agg, m.mvector(0)), m.mbin("or", m.mvector(0), agg), m.mbin("+", agg, m.mvector(1)), m.mbin("unless", agg, m.mvector(1))])
         elif kind == "sumwithout":
             L = rng.sample(names + ["nosuch"], rng.randint(0, min(3, len(names))))
             e = m.mvec("sum", inner, None, grouping(L, True))
